@@ -93,7 +93,7 @@ def c07_tokens3(toks: Tuple[int, int, int], n: int) -> bool:
     """
     pre: pinned(n=n, t0=toks[0], t1=toks[1])
     pre: 0 <= n <= 3
-    pre: all(0 <= toks[i] < NTOK3 and (i < n or toks[i] == 0) for i in range(3))
+    pre: enc.word_ranges(toks, n, NTOK3)
     post: _
     """
     raw = (toks, n)
@@ -104,7 +104,7 @@ def c07_tokens3(toks: Tuple[int, int, int], n: int) -> bool:
 def c07_tokens4(toks: Tuple[int, int, int, int]) -> bool:
     """
     pre: pinned(t0=toks[0], t1=toks[1])
-    pre: all(0 <= toks[i] < 10 for i in range(4))
+    pre: enc.in_range(toks, 10)
     post: _
     """
     raw = (toks,)
@@ -119,7 +119,7 @@ def c07_wide(toks: Tuple[int, int], n: int) -> bool:
     """
     pre: pinned(n=n, t0=toks[0])
     pre: 1 <= n <= 2
-    pre: all(0 <= toks[i] < 8 and (i < n or toks[i] == 0) for i in range(2))
+    pre: enc.word_ranges(toks, n, 8)
     post: _
     """
     raw = (toks, n)
